@@ -381,3 +381,205 @@ fn rtu_fixed_request(fc: u8) {
 fn zz06_fixed_fc6() {
     rtu_fixed_request(6);
 }
+
+// ---------------------------------------------------------------------------------------------
+// Receive side, SEVENTH formulation: every LENGTH is a constant of the call site (delivered prefix `first`, frame
+// length N, function code, byte count). With a symbolic delivered length the early `return Ok(None)` guards the
+// assignment `self.state = ..`, the state discriminant becomes `ite(guard, Read.., Start)` and the recursive
+// `self.parse(..)` is explored through all three arms down to the unwind bound (attempt six: 40.9 GB). With constant
+// lengths every guard folds during symbolic execution, the recursion resolves to the one arm the real run takes, and
+// what stays symbolic is exactly what the property is about: the address, the data bytes, the CRC trailer and the
+// stale residue behind the delivered bytes.
+// ---------------------------------------------------------------------------------------------
+
+/// `first` bytes of an N-byte frame are delivered, the parser runs, then the rest is delivered and it runs again.
+/// `count` = (stream index, value) of the byte-count field for variable-length PDUs.
+fn rtu_delivery<const N: usize>(request: bool, fc: u8, count: Option<(usize, u8)>, first: usize) {
+    let mut s: [u8; N] = kani::any();
+    s[1] = fc;
+    if let Some((i, c)) = count {
+        s[i] = c;
+    }
+    let mut crc = 0xFFFFu16;
+    let mut i = 0;
+    while i < N - 2 {
+        crc = tab_crc_step(crc, s[i]);
+        i += 1;
+    }
+    let crc_ok = s[N - 2] == crc as u8 && s[N - 1] == (crc >> 8) as u8;
+    let level = any_decode_level();
+    // everything behind the delivered prefix is arbitrary residue of earlier traffic
+    let mut buf = buffer_with(&s, first, 0);
+    let mut p = if request { RtuParser::new_request_parser() } else { RtuParser::new_response_parser() };
+    let mut r = p.parse(&mut buf, level.frame);
+    if first < N {
+        assert!(matches!(r, Ok(None)), "[C06] an incomplete frame is never acted on and is not an error");
+        assert!(invariant(&buf) && begin_of(&buf) <= 1, "[C06] at most the address byte is consumed before the frame is complete");
+        crate::common::buffer::verif_buffer::deliver(&mut buf, &s, first, N);
+        r = p.parse(&mut buf, level.frame);
+    }
+    match r {
+        Ok(None) => assert!(false, "[C06] a complete frame is decided"),
+        Ok(Some(f)) => {
+            assert!(crc_ok, "[C06] a frame is acted on only if its CRC verifies");
+            let dest = if s[0] == 0 { FrameDestination::Broadcast } else { FrameDestination::UnitId(UnitId::new(s[0])) };
+            assert!(f.header.destination == dest, "[C17] address 0 is broadcast, any other byte is a unit id");
+            assert!(f.header.tx_id.is_none(), "[C06] RTU frames carry no transaction id");
+            assert!(f.payload().len() == N - 3, "[C06] frame length derived from function code and byte count");
+            let k: usize = kani::any();
+            kani::assume(k < N - 3);
+            assert!(f.payload()[k] == s[1 + k], "[C06] PDU bytes are the received bytes");
+            assert!(begin_of(&buf) == N, "[C06] exactly one frame is consumed");
+            assert!(matches!(p.state, ParseState::Start), "[C06] parser ready for the next frame");
+            std::mem::forget(f);
+        }
+        Err(e) => {
+            assert!(!crc_ok, "[C06] a complete frame with a correct CRC is accepted");
+            assert!(matches!(e, RequestError::BadFrame(FrameParseError::CrcValidationFailure(..))), "[C06] CRC mismatch is a framing error");
+            std::mem::forget(e);
+        }
+    }
+    kani::cover!(crc_ok && s[0] == 0, "broadcast frame accepted");
+    kani::cover!(crc_ok && s[0] != 0, "unicast frame accepted");
+    kani::cover!(!crc_ok && s[N - 2] == crc as u8, "only the high CRC byte is wrong");
+    kani::cover!(!crc_ok && s[N - 1] == (crc >> 8) as u8, "only the low CRC byte is wrong");
+}
+
+/// what the parser must do with a prefix from which the frame length can be derived and is refused: fails at once
+fn rtu_refused<const N: usize>(request: bool, fc: u8, count: Option<(usize, u8)>, unknown: bool) {
+    let mut s: [u8; N] = kani::any();
+    s[1] = fc;
+    if let Some((i, c)) = count {
+        s[i] = c;
+    }
+    let level = any_decode_level();
+    let mut buf = buffer_with(&s, N, 0);
+    let mut p = if request { RtuParser::new_request_parser() } else { RtuParser::new_response_parser() };
+    match p.parse(&mut buf, level.frame) {
+        Err(RequestError::BadFrame(FrameParseError::UnknownFunctionCode(x))) => assert!(unknown && x == fc, "[C06] only an unknown function code is reported as such"),
+        Err(RequestError::BadFrame(FrameParseError::FrameLengthTooBig(n, max))) => {
+            assert!(!unknown && max == 253, "[C06] the ADU limit is 253");
+            assert!(n > 253, "[C06] only a PDU longer than 253 bytes is refused as too big");
+        }
+        _ => assert!(false, "[C06] an undecidable or oversized frame is a framing error, never a frame and never a wait"),
+    }
+    kani::cover!(s[0] == 0, "broadcast address");
+}
+
+//@ props: C06 C17~ C07~
+//@ peer: yes
+//@ timeout: 880
+//@ fns: serial::frame::RtuParser::parse (Start -> ReadFullBody, recursion included), RtuParser::length_mode, common::buffer::ReadBuffer::read_u8 / peek_at / read / read_u16_le / len, common::frame::Frame::new / set / payload, crc::Crc<u16>::digest, Digest::update, Digest::finalize
+//@ bounds: request direction, function code 6 (fixed length), the complete 8-byte frame delivered at once at buffer offset 0; symbolic: address, 4 body bytes, 2 CRC bytes, the 252 residue bytes behind the frame, decode level; unwind 12. Lengths are constants of the call site (seventh formulation, see above)
+//@ outside: other frame lengths and function codes (thorough tier adds fc 1/5/15/16, responses, exceptions); buffer offsets other than 0 (accessor offset-independence: c05_buffer_accessors); frames longer than 11 bytes
+/// RECEIVE SIDE: the real parser hands a complete fixed-length request to the session iff its CRC (low byte first)
+/// verifies, with the right destination and PDU, consuming exactly the frame
+#[kani::proof]
+#[kani::unwind(12)]
+fn c06_rtu_recv_fixed_request() {
+    rtu_delivery::<8>(true, 6, None, 8);
+}
+
+//@ props: ZZ
+//@ peer: yes
+//@ timeout: 1800
+//@ fns: serial::frame::RtuParser::parse (all three states, resumed across two calls)
+//@ bounds: request direction, function code 16 with byte count 2 (11-byte frame) delivered as 6 bytes (address .. quantity, NOT yet the byte count) and then the remaining 5; the byte behind the delivered prefix is arbitrary stale residue
+/// ATTEMPTED AND INTRACTABLE (unregistered): the split that would expose a byte count taken from stale buffer contents
+/// (seeded change C06-2). Measured: died at the 20 GB cap after 351 s; alone under a 34 GB cap: 31.3 GB resident at
+/// 386 s, out of memory at 457 s (symex 173 s - four times the fixed-length queries). Whole delivery of a
+/// variable-length frame (`c06_rtu_recv_write_coils_whole`) is tractable; the 6+5 split is not.
+#[kani::proof]
+#[kani::unwind(14)]
+fn zz06_rtu_recv_write_multiple_split() {
+    rtu_delivery::<11>(true, 16, Some((6, 2)), 6);
+}
+
+//@ props: C06 C05 C07
+//@ peer: yes
+//@ tier: thorough
+//@ timeout: 1800
+//@ fns: serial::frame::RtuParser::parse (resumption), ReadBuffer accessors, crc::Digest
+//@ bounds: request direction, function code 6, 8-byte frame delivered as 1 byte + 7 bytes; unwind 12
+#[kani::proof]
+#[kani::unwind(12)]
+fn c06_rtu_recv_fixed_split1() {
+    rtu_delivery::<8>(true, 6, None, 1);
+}
+
+//@ props: ZZ
+//@ desc: UNREGISTERED - not yet observed on the clean tree in this session
+//@ peer: yes
+//@ tier: thorough
+//@ timeout: 1800
+//@ fns: serial::frame::RtuParser::parse (resumption inside the CRC trailer), ReadBuffer accessors, crc::Digest
+//@ bounds: request direction, function code 1, 8-byte frame delivered as 7 bytes + 1 byte (split between the two CRC bytes); unwind 12
+#[kani::proof]
+#[kani::unwind(12)]
+fn zz06_rtu_recv_fixed_split7() {
+    rtu_delivery::<8>(true, 1, None, 7);
+}
+
+//@ props: C06 C17 C07
+//@ peer: yes
+//@ tier: thorough
+//@ timeout: 1800
+//@ fns: serial::frame::RtuParser::parse (Start -> ReadToOffsetForLength -> ReadFullBody in one call), crc::Digest
+//@ bounds: request direction, function code 15 with byte count 1 (10-byte frame) delivered at once; unwind 14
+#[kani::proof]
+#[kani::unwind(14)]
+fn c06_rtu_recv_write_coils_whole() {
+    rtu_delivery::<10>(true, 15, Some((6, 1)), 10);
+}
+
+//@ props: ZZ
+//@ desc: UNREGISTERED - died at the 20 GB cap after 266 s (symex 131 s) next to three other queries; not re-run alone
+//@ peer: yes
+//@ tier: thorough
+//@ timeout: 1800
+//@ fns: serial::frame::RtuParser::parse (response direction: byte count at offset 1), RtuParser::length_mode, crc::Digest
+//@ bounds: response direction, function code 3 with byte count 2 (7-byte reply) delivered as 2 bytes + 5 bytes; unwind 12
+#[kani::proof]
+#[kani::unwind(12)]
+fn zz06_rtu_recv_read_reply_split() {
+    rtu_delivery::<7>(false, 3, Some((2, 2)), 2);
+}
+
+//@ props: C06 C07
+//@ peer: yes
+//@ tier: thorough
+//@ timeout: 1800
+//@ fns: serial::frame::RtuParser::parse, RtuParser::length_mode (exception bit, response direction only), crc::Digest
+//@ bounds: response direction, exception reply to function 3 (0x83), 5-byte frame delivered at once; unwind 12
+#[kani::proof]
+#[kani::unwind(12)]
+fn c06_rtu_recv_exception_reply() {
+    rtu_delivery::<5>(false, 0x83, None, 5);
+}
+
+//@ props: ZZ
+//@ desc: UNREGISTERED - not yet observed on the clean tree in this session
+//@ peer: yes
+//@ tier: thorough
+//@ timeout: 1800
+//@ fns: serial::frame::RtuParser::parse, RtuParser::length_mode (write echo, response direction), crc::Digest
+//@ bounds: response direction, write-multiple-registers echo (function 16, fixed 4 bytes), 8-byte frame delivered as 3 + 5; unwind 12
+#[kani::proof]
+#[kani::unwind(12)]
+fn zz06_rtu_recv_write_echo_split() {
+    rtu_delivery::<8>(false, 16, None, 3);
+}
+
+//@ props: C06 C07
+//@ peer: yes
+//@ tier: thorough
+//@ timeout: 1800
+//@ fns: serial::frame::RtuParser::parse (error exits), RtuParser::length_mode, common::function::FunctionCode::get
+//@ bounds: request direction: function code 7 (unknown) with 2 bytes buffered; function code 0x83 as a REQUEST (exception bit is only meaningful in replies); function code 16 with byte count 250 (PDU 256 > 253) with 7 bytes buffered; unwind 10
+#[kani::proof]
+#[kani::unwind(10)]
+fn c06_rtu_recv_refused() {
+    rtu_refused::<2>(true, 7, None, true);
+    rtu_refused::<2>(true, 0x83, None, true);
+    rtu_refused::<7>(true, 16, Some((6, 250)), false);
+}
